@@ -56,6 +56,13 @@ func enumerateCases(prop, tier string) []ProvCase {
 			}
 		}
 	}
+	if prop == "C12" || prop == "C18" || prop == "C20" {
+		for _, k := range []int{1, 2} {
+			for _, n := range []int{1, 3, 21} {
+				cases = append(cases, ProvCase{Kind: "fleet-cross", Size: n, K: k})
+			}
+		}
+	}
 	if prop == "C07" || prop == "C17" {
 		// force-removal batch (k-th terminate failing or none) followed by a scale-up in the same scan
 		for _, desired := range []int{4, 7} {
